@@ -94,6 +94,20 @@ const (
 	_listFixedUntypedLenMax    = _listFixedUntypedLenTagMax - _listFixedUntypedLenTagMin
 )
 
+// _maxPrealloc is the largest number of elements allocated ahead of reading them
+const _maxPrealloc = 1024
+
+// preallocLen bounds a length declared in the input for the purpose of allocation
+func preallocLen(n int) int {
+	if n > _maxPrealloc {
+		return _maxPrealloc
+	}
+	if n < 0 {
+		return 0
+	}
+	return n
+}
+
 func listFixedTypedLenTag(tag byte) bool {
 	return tag >= _listFixedTypedLenTagMin && tag <= _listFixedTypedLenTagMax
 }
@@ -232,7 +246,13 @@ func (d *Decoder) readTypedList(tag byte) (interface{}, error) {
 		return nil, newCodecError("readTypedList", "can't find list type %s", listTyp)
 	}
 
-	aryValue := reflect.MakeSlice(aryType, length, length)
+	if aryType.Kind() != reflect.Slice {
+		return nil, newCodecError("readTypedList", "list type %s is mapped to %v, which is not a slice type", listTyp, aryType)
+	}
+
+	// the declared length is not trusted for allocation: the slice grows as the elements
+	// actually arrive, so memory is bounded by the input that was read
+	aryValue := reflect.MakeSlice(aryType, 0, preallocLen(length))
 	holder := d.addDecoderRef(aryValue)
 
 	for j := 0; j < length || isVariableArr; j++ {
@@ -244,25 +264,13 @@ func (d *Decoder) readTypedList(tag byte) (interface{}, error) {
 			return nil, newCodecError("readTypedList", err)
 		}
 
-		if item == nil {
-			// a null element: leave the zero value in place
-			if isVariableArr {
-				aryValue = reflect.Append(aryValue, reflect.Zero(aryType.Elem()))
-				holder.change(aryValue)
-			}
-			continue
+		// convert to the element type (int32 to int, *A to A, ...); a null element is the zero value
+		el := reflect.New(aryType.Elem()).Elem()
+		if item != nil {
+			SetValue(el, EnsureRawValue(item))
 		}
-
-		v := EnsureRawValue(item)
-		if isVariableArr {
-			// convert to the element type as the fixed-length form does (int32 to int, *A to A, ...)
-			el := reflect.New(aryType.Elem()).Elem()
-			SetValue(el, v)
-			aryValue = reflect.Append(aryValue, el)
-			holder.change(aryValue)
-		} else {
-			SetValue(aryValue.Index(j), v)
-		}
+		aryValue = reflect.Append(aryValue, el)
+		holder.change(aryValue)
 	}
 
 	return holder, nil
@@ -298,9 +306,9 @@ func (d *Decoder) readUntypedList(tag byte) (interface{}, error) {
 		return nil, nil
 	}
 
-	ary := make([]interface{}, length)
-	aryValue := reflect.ValueOf(ary)
-	holder := d.addDecoderRef(aryValue)
+	// the declared length is not trusted for allocation (see readTypedList)
+	ary := make([]interface{}, 0, preallocLen(length))
+	holder := d.addDecoderRef(reflect.ValueOf(ary))
 
 	for j := 0; j < length || isVariableArr; j++ {
 		it, err := d.ReadData()
@@ -311,19 +319,11 @@ func (d *Decoder) readUntypedList(tag byte) (interface{}, error) {
 			return nil, newCodecError("readUntypedList", err)
 		}
 
-		if isVariableArr {
-			v := EnsureRawValue(it)
-			if !v.IsValid() {
-				// a null element
-				v = reflect.Zero(aryValue.Type().Elem())
-			}
-			aryValue = reflect.Append(aryValue, v)
-			holder.change(aryValue)
-		} else {
-			// store the value itself, not the decoder's carrier (a reflect.Value for a
-			// back-reference, a list holder for a nested list)
-			ary[j], _ = EnsureInterface(it, nil)
-		}
+		// store the value itself, not the decoder's carrier (a reflect.Value for a
+		// back-reference, a list holder for a nested list)
+		v, _ := EnsureInterface(it, nil)
+		ary = append(ary, v)
+		holder.change(reflect.ValueOf(ary))
 	}
 
 	return holder, nil
